@@ -5,6 +5,7 @@ mod enumx;
 mod fileck;
 mod fresh;
 mod iosim;
+mod metax;
 mod pool;
 mod real;
 mod refmodel;
@@ -35,6 +36,7 @@ fn main() {
             match engine.as_str() {
                 "seqx" => seqx::worker(idx),
                 "enumx" => enumx::worker(idx),
+                "metax" => metax::worker(idx),
                 _ => usage(),
             }
         }
@@ -72,6 +74,7 @@ fn main() {
             let code = match v["engine"].as_str() {
                 Some("seqx") => seqx::replay(&v),
                 Some("enumx") => enumx::replay(&v),
+                Some("metax") => metax::replay(&v),
                 _ => {
                     eprintln!("unknown engine in replay file");
                     2
@@ -104,6 +107,16 @@ fn run_check(id: &str, tier: Tier) -> i32 {
                 "strict profile (debug assertions, overflow checks); page size 1024 (quick), 1024 and 4096 (thorough)".into(),
             ];
             enumx::run(&mut c);
+            c.finish()
+        }
+        "C12" => {
+            let mut c = Check::new(id, tier, "fault_enumeration");
+            c.assumptions = vec![
+                "exactly one of the two header pages is damaged; the other one and all data pages are intact; the file was closed cleanly before the damage".into(),
+                "expected header = the valid one with the higher transaction id according to the independent checker (type byte + FNV-1a / SHA3 checksum restated in fileck)".into(),
+                "damage classes are bounded (see coverage.rule); random multi-byte overwrites of the property text are replaced by the exhaustive structured classes".into(),
+            ];
+            metax::run(&mut c);
             c.finish()
         }
         _ => {
